@@ -123,6 +123,17 @@ def rule_tracker(ctx):
             w = body.must_before(e.bb, ctx.both(inf, lambda x: x in starts))
             R.ob('W2-direct-nested', body.path + '#' + e.name, w is None, '%s is preceded by %s on every path' % (e.name, sname) if w is None else '%s can be emitted without a preceding %s' % (e.name, sname),
                  ctx.where(body, e.bb), props=P)
+    # ---- W8: a build entry point emits build start (and, by W2, build end) on every path on which it returns
+    builders = [b for b in F.bodies.values() if b.crate == 'pie' and not b.is_test_code() and b.kind == 'AssocFn' and
+                any(F.callee_body(c) is not None and F.callee_body(c).name == 'build' and F.callee_body(c).id in ctx.tracking_helpers for c in b.calls.values())]
+    R.floor('W8', 'build entry points', len(builders), 2, props=P)
+    for b in builders:
+        hb = {c.bb for c in b.calls.values() if F.callee_body(c) is not None and F.callee_body(c).name == 'build' and F.callee_body(c).id in ctx.tracking_helpers}
+        seen = b.reach([0], avoid=ctx.both(ctx.infeasible(b), lambda n: n in hb))
+        esc = [r for r in b.returns() if r in seen]
+        R.ob('W8-build-events', b.path, not esc, 'every completed build is bracketed by build_start / build_end' if not esc
+             else 'the build entry point can return without emitting build_start / build_end (a recording tracker keeps showing the previous build):\n' + b.fmt_path(b.witness(seen, esc[0])),
+             ctx.where(b), props=P)
     # ---- W4: composite tracker
     comp = [im for im in F.impls if im.get('trait') == TRK and im['self_ty'].startswith('pie::tracker::CompositeTracker') and im['crate'] == 'pie']
     if len(comp) != 1:
@@ -391,6 +402,38 @@ def rule_identity(ctx):
                                 bad_n += 1
                                 R.ob('I3-coercion', b.path + '#' + ty, False, 'a %s is coerced to %s: the trait object then wraps the Box, and downcasts to the boxed type fail' % (src, ty),
                                      '%s:%s %s' % (b.file, s.get('ln'), b.path), props=P)
+    # I3-instantiation: a function that boxes-and-erases one of its type parameters (value of type P -> dyn object) must not be
+    # instantiated with P = Box<_>: the erased object would have dynamic type Box<_>, a different identity than the value inside
+    erasers = {}
+    for b in F.bodies.values():
+        if b.crate != 'pie' or b.kind not in ('AssocFn', 'Fn'):
+            continue
+        for blk in b.blocks:
+            if blk['cleanup']:
+                continue
+            for s in blk['stmts']:
+                if s['k'] == 'a' and s['rv']['k'] == 'cast' and 'Unsize' in s['rv']['ck']:
+                    ty = b.fix(s['rv']['ty'])
+                    if 'dyn ' in ty and any(x in ty for x in ('KeyObj', 'ValueObj', 'MapValueObj', 'std::any::Any')) and 'TaskObj' not in ty:
+                        op = F.operand(s['rv']['op'])
+                        if op[0] in ('c', 'm') and not op[1][1]:
+                            src = b.local_ty(op[1][0])
+                            mm = re.match(r"(?:std::boxed::Box<|&(?:mut )?)([A-Z][A-Za-z0-9_]*)>?$", src)
+                            if mm and mm.group(1) in b.generics:
+                                erasers.setdefault(b.id, set()).add(b.generics.index(mm.group(1)))
+    for b in F.bodies.values():
+        if b.crate not in ('pie', 'dev_ext') or b.is_test_code():
+            continue
+        for c in b.calls.values():
+            if c.callee_id in erasers:
+                cb = F.bodies.get(c.callee_id)
+                own = [g_ for g_ in c.gargs]
+                for idx in erasers[c.callee_id]:
+                    # gargs of an inherent method = impl generics + method generics, in the order of `generics`
+                    if idx < len(own) and re.match(r"&?(mut )?std::(boxed::Box|rc::Rc|sync::Arc)<", own[idx]):
+                        bad_n += 1
+                        R.ob('I3-instantiation', b.path + '#' + c.name, False, '%s erases its type parameter `%s` into a trait object, and is called here with that parameter = %s: the object gets the dynamic type of the '
+                             'box, not of the value inside, so it never equals a key built from the value directly' % (cb.path if cb else c.qname, cb.generics[idx] if cb else idx, own[idx]), ctx.where(b, c.bb), props=P + ('C14',))
     R.ob('I3-summary', 'box-pitfall', bad_n == 0, 'none of %d as_any/eq_any/hash_obj calls and dyn coercions has a Box<dyn _> receiver/pointee' % n if bad_n == 0 else '%d Box<dyn _> pitfall site(s)' % bad_n, '', props=P)
     R.floor('I3', 'as_any/eq_any/hash_obj calls and dyn coercions', n, 30, props=P)
     # I4 get-or-create
@@ -507,6 +550,10 @@ def rule_map(ctx):
             good = bool(c.gargs) and c.gargs[0] == first
             R.ob('M2-forward', b.path + '->' + c.name, good, 'forwards with its key type first' if good else 'forwards with type arguments %s' % c.gargs, ctx.where(b, c.bb), props=P)
     R.floor('M2', 'TypeToAnyMap accessors', n, 9, props=P)
+    adt = F.adts.get(TAM)
+    kt = adt['variants'][0]['fields'][0]['ty'] if adt else ''
+    good = kt.replace(' ', '').startswith('std::collections::HashMap<std::any::TypeId,')
+    R.ob('M2-key-type', TAM, good, 'typed state is keyed by std::any::TypeId (unique per type)' if good else 'typed state is keyed by %s: distinct types can collide' % kt[:80], '', props=P)
     # M3: an existing state value is replaced only when its type differs; a missing one is created
     ens = [b for b in inh if any(c.name in ('and_modify', 'entry') for c in b.calls.values())]
     for b in ens:
